@@ -18,6 +18,10 @@ def run(chk):
     for wdir in ((1, 2), (2, 1)):
         for closer in ([("X", 1, 2)], [("X", 2, 1)], [("R", 1)], [("R", 2)], [("P", 1, 2), ("Q",), ("H", 1, 2)], [("D", 2, 1)]):
             fixed.append((n3, [("D", 1, 2), ("W",) + wdir] + closer + [("Q",), ("D", 3, 1), ("Q",)]))
+    # ... a peer dialed again while connected (same direction, or dialed back), then used and ended from either side
+    for second in (("D", 1, 2), ("D", 2, 1), ("D", 1, 2, 2)):
+        for closer in ([("X", 1, 2)], [("X", 2, 1)], [("R", 2)]):
+            fixed.append((n3, [("D", 1, 2), second, ("Q",)] + closer + [("Q",)]))
     # ... and a connection ended by its dialer the moment the dial returns
     for closer in ([("X", 1, 2)], [("R", 1)]):
         fixed.append((n3, [("D", 1, 2, 2, "now")] + closer + [("Q",), ("D", 2, 1), ("Q",)]))
